@@ -48,7 +48,7 @@ ReplyDec(api, bytes) == IF api = ProduceKey THEN DecProduceResponse(bytes) ELSE 
 LReplyEvCheck(e) ==
   IF ~IsBytes(e.bytes) \/ ~ReplyDec(e.api, e.bytes).ok THEN "harness.brokerBytes"
   ELSE LReplyCheck(e.w, ReplyDec(e.api, e.bytes).val.corr)
-LReplyEvUpd(e) == LReplyUpd(e.w, e.api, ReplyDec(e.api, e.bytes).val.corr, e.bytes)
+LReplyEvUpd(e) == LReplyUpd(e.w, e.api, ReplyDec(e.api, e.bytes).val.corr, e.bytes, e.t)
 
 \* LDone: e = [r, api, raised, out, brokers, topics]: what the caller of r was given.
 \* A reply matches if, decoded by the spec as the kind of response the request expects, it is exactly that.
@@ -58,10 +58,15 @@ RespMatches(rep, e) ==
      THEN PRespCheck([bytes |-> rep.c, raised |-> "none", out |-> e.out]) = "ok"
      ELSE MRespCheck([bytes |-> rep.c, raised |-> "none", brokers |-> e.brokers, topics |-> e.topics]) = "ok"
 Matching(e) == IF e.raised # "none" THEN {} ELSE {k \in DOMAIN lrep : RespMatches(lrep[k], e)}
-LDoneEvCheck(e) == LDoneCheck(e.r, e.raised, Matching(e))
+LDoneEvCheck(e) == LDoneCheck(e.r, e.raised, Matching(e), e.t)
 LDoneEvUpd(e)   == LDoneUpd(e.r, e.raised, Matching(e))
 
-IsLate(e) == e.e \in {"LReq", "LReply", "LDone", "LEnd"}
+\* LWire: e = [r, topic, partition, acks, payloads, corr, cid, frame, braised, hraised]: the broker has received
+\* this frame completely; the harness found request r in it (0: none); ReqCheck judges it against r's inputs
+LWireEvCheck(e) == IF LWireCheck(e.r) # "ok" THEN LWireCheck(e.r) ELSE ReqCheck(e)
+LWireEvUpd(e)   == LWireUpd(e.r, FrameCorr(e.frame))
+
+IsLate(e) == e.e \in {"LReq", "LWire", "LReply", "LDone", "LEnd"}
 IsStream(e) == e.e \in {"SSup", "SBytes", "SClosed", "SEnd"}
 \* the framing of an SBytes event is evaluated once per step (p below)
 NoParse == [rest |-> <<>>, used |-> {}, v |-> "ok"]
@@ -74,6 +79,7 @@ CheckOfP(e, p) ==
     [] e.e = "MResp" -> MRespCheck(e)
     [] e.e = "Route" -> RouteCheck(e)
     [] e.e = "LReq"   -> LReqEvCheck(e)
+    [] e.e = "LWire"  -> LWireEvCheck(e)
     [] e.e = "LReply" -> LReplyEvCheck(e)
     [] e.e = "LDone"  -> LDoneEvCheck(e)
     [] e.e = "LEnd"   -> LEndCheck(e.unread)
@@ -85,6 +91,7 @@ CheckOfP(e, p) ==
 
 LUpdOf(e) ==
   CASE e.e = "LReq"   -> LReqEvUpd(e)
+    [] e.e = "LWire"  -> LWireEvUpd(e)
     [] e.e = "LReply" -> LReplyEvUpd(e)
     [] e.e = "LDone"  -> LDoneEvUpd(e)
     [] e.e = "LEnd"   -> LEndUpd
